@@ -11,26 +11,34 @@ Hd(l, how) == B("H", l, how, "", NoTbl)
 Pp == B("P", 0, "", "", NoTbl)
 Li(l) == B("LI", l, "", "bullet", NoTbl)
 Tb == B("TBL", 0, "", "", [rows |-> 1, cols |-> 2, hm |-> <<>>, vm |-> <<>>, mp |-> <<>>, rc |-> <<>>])
-D(f, body) == [fmt |-> f, body |-> body, hdr |-> 1, ftr |-> 0, sheet |-> <<>>]
+D(f, body) == [fmt |-> f, body |-> body, hdr |-> 1, ftr |-> 1, sheet |-> <<>>]
+\* a body paragraph that equals the header line / the footer line
+Echo(a) == [k |-> "P", ch |-> <<R("r", <<a>>)>>, lvl |-> 0, how |-> "", num |-> "", sty |-> 0, tb |-> NoTbl]
 
-HDocs == {D("docx", <<Hd(2, "builtin"), Pp, Hd(7, "builtin"), Li(0), Li(1), Hd(9, "outline"), Tb, Hd(8, "custom1"), Hd(6, "custom2")>>),
-          D("docx", <<Hd(9, "builtin"), Hd(1, "outline"), Pp>>),
-          D("odt",  <<Hd(2, "builtin"), Pp, Hd(7, "builtin"), Li(0), Li(1), Hd(10, "outline"), Tb, Hd(8, "custom1")>>),
-          D("odt",  <<Hd(9, "custom1"), Hd(1, "outline"), Pp>>)}
+HDocs == {D("docx", <<Hd(2, "builtin"), Echo("eh"), Pp, Hd(7, "builtin"), Li(0), Li(1), Hd(9, "outline"), Tb, Echo("ef"), Hd(8, "custom1"), Hd(6, "custom2")>>),
+          D("docx", <<Hd(9, "builtin"), Echo("ef"), Hd(1, "outline"), Pp, Echo("ef")>>),
+          D("odt",  <<Hd(2, "builtin"), Echo("ef"), Pp, Hd(7, "builtin"), Li(0), Li(1), Hd(10, "outline"), Tb, Echo("eh"), Hd(8, "custom1")>>),
+          D("odt",  <<Hd(9, "custom1"), Echo("eh"), Hd(1, "outline"), Pp>>)}
 
-C(op, off, mx) == [op |-> op, off |-> off, mx |-> mx]
-HCalls == {C("text", 0, 0), C("md", 0, 0), C("mdopt", 0, 0), C("doc", 0, 0), C("tables", 0, 0),
-           C("rag", 0, 0), C("rag", -1, 0), C("rag", 2, 0), C("rag", 0, 2), C("rag", -2, 9), C("rag", 1, 4)}
+C(op, off, mx) == [op |-> op, off |-> off, mx |-> mx, xo |-> "none"]
+X(op, off, mx, xo) == [op |-> op, off |-> off, mx |-> mx, xo |-> xo]
+Xos == {"none", "h", "f", "hf"}
+HCalls == {C("md", 0, 0), C("doc", 0, 0), C("tables", 0, 0)}
+          \cup {X("text", 0, 0, xo) : xo \in Xos} \cup {X("mdopt", 0, 0, xo) : xo \in Xos}
+          \cup {X("rag", 0, 0, "none"), X("rag", -1, 0, "h"), X("rag", 2, 0, "f"), X("rag", 0, 2, "hf"), X("rag", -2, 9, "none"),
+                X("rag", 1, 4, "f")}
 
-\* the quick alphabet: one call of every kind, two RAG option sets
-HCallsQ == {C("text", 0, 0), C("md", 0, 0), C("mdopt", 0, 0), C("doc", 0, 0), C("tables", 0, 0),
-            C("rag", -1, 0), C("rag", 0, 2)}
+\* the quick alphabet: every view, every option set on Text, two on the Markdown views
+HCallsQ == {C("md", 0, 0), C("doc", 0, 0), C("tables", 0, 0)}
+           \cup {X("text", 0, 0, xo) : xo \in Xos}
+           \cup {X("mdopt", 0, 0, "h"), X("mdopt", 0, 0, "hf"), X("rag", -1, 0, "f"), X("rag", 0, 2, "none")}
 
 EmitHist == (Len(hist) = MaxLen) => PrintT(ToJson(
     [kind |-> "history", fmt |-> doc.fmt, body |-> doc.body, hdr |-> doc.hdr, ftr |-> doc.ftr, sheet |-> doc.sheet,
      bases |-> Bases(doc.body), ntok |-> Sum([i \in 1..Len(doc.body) |-> NTok(doc.body[i])]),
      items |-> [i \in 1..Len(doc.body) |-> Item(doc, i)],
      hdrtok |-> HdrTok, ftrtok |-> FtrTok,
-     calls |-> [n \in 1..Len(hist) |-> [op |-> hist[n].call.op, off |-> hist[n].call.off, mx |-> hist[n].call.mx,
-                                        levels |-> hist[n].levels]]]))
+     calls |-> [n \in 1..Len(hist) |-> [op |-> hist[n].call.op, off |-> hist[n].call.off, mx |-> hist[n].call.mx, xo |-> hist[n].call.xo,
+                                        levels |-> hist[n].levels, eh |-> hist[n].eh, ef |-> hist[n].ef,
+                                        neh |-> NEcho(doc, "eh"), nef |-> NEcho(doc, "ef")]]]))
 =============================================================================
